@@ -273,3 +273,11 @@ func lambdaIsLn2OverHalflife(v constant.Value, halflife int64) bool {
 	f, _ := constant.Float64Val(prod)
 	return f > 0.6931471805599452 && f < 0.6931471805599454
 }
+
+// paramN: predicate — the value is parameter number n (receiver = 0) of its function.
+func paramN(n int) func(ssa.Value) bool {
+	return func(v ssa.Value) bool {
+		p, ok := v.(*ssa.Parameter)
+		return ok && n < len(p.Parent().Params) && p.Parent().Params[n] == p
+	}
+}
